@@ -283,7 +283,40 @@ static void walkCase(Rng &rng, CaseResult &r) {
   }
   if (r.needSample()) r.sample = vf::J::obj().kv("family", famStr(f)).kraw("x", vf::jarr(x)).kraw("y", vf::jarr(y)).str();
   if (r.dumpOnly || n == 0) return;
-  DetailedPlacement pl = DetailedPlacement::fromPos(rows, f.widths, x, y);
+  // half of the walks use row orientations and cell polarities: the moves must then keep every polarised cell in the
+  // orientation its row prescribes and never put it into a forbidden row (no INVALID orientation)
+  bool polarised = rng.chance(0.5);
+  std::vector<CellOrientation> orient(n, CellOrientation::N);
+  std::vector<CellRowPolarity> pol(n, CellRowPolarity::ANY);
+  std::vector<int> cellIndex(n);
+  for (int c = 0; c < n; ++c) cellIndex[c] = c;
+  if (polarised) {
+    static const CellOrientation ro[4] = {CellOrientation::N, CellOrientation::FS, CellOrientation::S, CellOrientation::FN};
+    for (auto &row : rows) row.orientation = ro[rng.range(0, 3)];
+    if (f.shape == 2 && rows.size() == 2) rows[1].orientation = rows[0].orientation;  // one orientation per y level
+    static const CellRowPolarity pp[5] = {CellRowPolarity::ANY, CellRowPolarity::SAME, CellRowPolarity::OPPOSITE, CellRowPolarity::NW, CellRowPolarity::SE};
+    for (int c = 0; c < n; ++c) {
+      CellOrientation rowO = CellOrientation::N;
+      for (auto &row : rows) if (row.minY == y[c] && row.minX <= x[c] && x[c] + f.widths[c] <= row.maxX) rowO = row.orientation;
+      pol[c] = pp[rng.range(0, 4)];
+      CellOrientation req = requiredOrientation(pol[c], rowO);
+      if (req == CellOrientation::INVALID) { pol[c] = CellRowPolarity::ANY; req = CellOrientation::UNKNOWN; }
+      orient[c] = req == CellOrientation::UNKNOWN ? UNTURNED4[rng.range(0, 3)] : req;
+    }
+  }
+  std::vector<CellOrientation> orient0 = orient;
+  DetailedPlacement pl = polarised ? DetailedPlacement(rows, f.widths, x, y, orient, pol, cellIndex) : DetailedPlacement::fromPos(rows, f.widths, x, y);
+  auto polarityOk = [&]() -> std::string {
+    if (!polarised) return "";
+    for (int c = 0; c < n; ++c) {
+      CellOrientation o = pl.cellOrientation(c);
+      if ((int)o < 0 || (int)o > 7) return "cell " + std::to_string(c) + " has orientation " + oname(o);
+      CellOrientation req = requiredOrientation(pol[c], pl.rows()[pl.cellRow(c)].orientation);
+      if (req == CellOrientation::INVALID) return "cell " + std::to_string(c) + " (" + pname(pol[c]) + ") sits in a forbidden row";
+      if (req == CellOrientation::UNKNOWN ? o != orient0[c] : o != req) return "cell " + std::to_string(c) + " (" + pname(pol[c]) + ") has orientation " + oname(o);
+    }
+    return "";
+  };
   int steps = rng.chance(0.05) ? (int)rng.range(41, 400) : (int)rng.range(5, 40), done = 0;
   std::string trace;
   for (int s = 0; s < steps; ++s) {
@@ -300,7 +333,10 @@ static void walkCase(Rng &rng, CaseResult &r) {
     try { pl.check(); } catch (const std::exception &e) { r.fail("C02:ds:check-failed-after-op", famStr(f) + " trace " + trace + ": " + e.what()); break; }
     std::string e = rederive(pl);
     if (!e.empty()) { r.fail("C02:ds:illegal-or-inconsistent-after-op", famStr(f) + " trace " + trace + ": " + e); break; }
+    std::string pe = polarityOk();
+    if (!pe.empty()) { r.fail("C02:ds:polarity-violated-after-op", famStr(f) + " trace " + trace + ": " + pe); break; }
   }
+  if (polarised) r.count("polarised_walks");
   r.count("ops", done);
   r.nontrivial = done >= 2;
   r.sig = famStr(f).substr(0, 14) + "n" + std::to_string(n) + "d" + std::to_string(std::min(done / 4, 9));
